@@ -194,7 +194,7 @@ func (q *QueryRangeService) exportStreamsValue(out chan []shared.LogEntry,
 			stream.WriteArrayStart()
 			stream.WriteString(fmt.Sprintf("%d", e.TimestampNS))
 			stream.WriteMore()
-			stream.WriteString(e.Message)
+			stream.WriteString(validUTF8(e.Message))
 			stream.WriteArrayEnd()
 
 			res <- model.QueryRangeOutput{Str: string(stream.Buffer())}
@@ -503,8 +503,8 @@ func (q *QueryRangeService) QueryInstant(ctx context.Context, query string, time
 				if j > 0 {
 					stream.WriteMore()
 				}
-				stream.WriteObjectField(k)
-				stream.WriteString(v)
+				stream.WriteObjectField(validUTF8(k))
+				stream.WriteString(validUTF8(v))
 				j++
 			}
 			stream.WriteObjectEnd()
@@ -638,7 +638,7 @@ func (q *QueryRangeService) Tail(ctx context.Context, query string) (model.IWatc
 					stream.WriteArrayStart()
 					stream.WriteString(fmt.Sprintf("%d", e.TimestampNS))
 					stream.WriteMore()
-					stream.WriteString(e.Message)
+					stream.WriteString(validUTF8(e.Message))
 					stream.WriteArrayEnd()
 					if from.UnixNano() < e.TimestampNS {
 						from = time.Unix(0, e.TimestampNS+1)
@@ -685,6 +685,13 @@ func (w *Watcher) Close() {
 	w.cancel()
 }
 
+// validUTF8 makes a stored string fit for a JSON document: JSON text is UTF-8 and the jsoniter stream copies
+// bytes >= 0x80 through as they are, so every invalid sequence is replaced by U+FFFD (what encoding/json does).
+// Valid strings are returned unchanged.
+func validUTF8(s string) string {
+	return strings.ToValidUTF8(s, "\uFFFD")
+}
+
 func writeMap(stream *jsoniter.Stream, m map[string]string) {
 	i := 0
 	stream.WriteObjectStart()
@@ -692,8 +699,8 @@ func writeMap(stream *jsoniter.Stream, m map[string]string) {
 		if i > 0 {
 			stream.WriteMore()
 		}
-		stream.WriteObjectField(k)
-		stream.WriteString(v)
+		stream.WriteObjectField(validUTF8(k))
+		stream.WriteString(validUTF8(v))
 		i++
 	}
 	stream.WriteObjectEnd()
